@@ -256,11 +256,17 @@ class Session:
                         data[n2] = np.array([tuple(r) for r in rows2], dtype=object) if rows2 else np.zeros((0, 2), dtype=object)
                     else:
                         data[n2] = np.array(rows2, dtype=float).reshape(len(rows2), -1) if rows2 else np.zeros((0, 2))
-                if op.get("fixed_width"):
+                if op.get("via_derive"):
+                    # the SAME table for the model, but produced by the implementation as a derivation of the table in
+                    # use (t * k, t + t, t._copy()): look-ups on the result must resolve against ITS index column
+                    src = self.pool[0]
+                    how = op["via_derive"]
+                    t = src * how[1] if how[0] == "mul" else (src + src if how[0] == "add_self" else src._copy())
+                elif op.get("fixed_width"):
                     # string columns kept as numpy fixed-width strings (cast_strings=False): the same table for the model
                     data = {n: (np.array(cs) if cs and all(isinstance(c, str) for c in cs) else data[n]) for n, cs in op["cols"]}
                     t = Table(data, index=op["index"], cast_strings=False)
-                else:
+                elif not op.get("via_derive"):
                     t = Table(data, index=op["index"])
                 for k, v in op.get("scalars", []):
                     if isinstance(v, dict) and "np" in v:
@@ -357,6 +363,18 @@ class Session:
                            "cells": [[cell_json(x) for x in cur._data[c]] for c in cur._col_names]}
                 elif kind == "exprcol":
                     val = [cell_json(x) for x in (t[op["expr"]] if not op.get("via_cols") else t.cols[op["expr"]][op["expr"]])]
+                elif kind == "expr_after_shared_write":
+                    # a column expression evaluated on t, then a table that SHARES t's arrays (copy / column selection /
+                    # slice of rows) gets a cell or an existing column assigned (which writes through, a shallow copy by
+                    # design), then the same expression text is asked of t again: element-wise on the CURRENT columns
+                    first = [cell_json(x) for x in t[op["expr"]]]
+                    d = t._copy() if op["how"] == "copy" else (t.cols[["name", "v", "w", "x"]] if op["how"] == "cols" else t.rows[0:len(t)])
+                    if op["write"][0] == "cell":
+                        d[op["write"][1], op["write"][2]] = op["write"][3]
+                    else:
+                        d[op["write"][1]] = np.array(op["write"][2])
+                    val = {"first": first, "again": [cell_json(x) for x in t[op["expr"]]],
+                           "again_cols": [cell_json(x) for x in t.cols[op["expr"]][op["expr"]]]}
                 elif kind == "colexpr":
                     # the integer fragment the model computes (XModel/TableExpr.lean): compared cell by cell
                     val = [cell_json(x) for x in t[op["text"]]]
@@ -500,6 +518,16 @@ class Session:
                 self.fail("C14", "expression-column-raises", {"expr": op["expr"], "exc": exc, "columns": list(t._col_names)})
             elif want is not None and val != want:
                 self.fail("C14", "expression-column-not-elementwise", {"expr": op["expr"], "got": val, "want": want})
+        elif kind == "expr_after_shared_write":
+            st["c14_expr_after_shared_write"] = st.get("c14_expr_after_shared_write", 0) + 1
+            env = {k: v for k, v in t._data.items() if k in t._col_names}
+            want = [cell_json(x) for x in eval(op["expr"], {"np": np}, env)]
+            if exc != "ok":
+                self.fail("C14", "expression-column-raises", {"expr": op["expr"], "exc": exc, "after": op["write"]})
+            elif val["again"] != want or val["again_cols"] != want:
+                self.fail("C14", "expression-column-not-elementwise-on-current-columns",
+                          {"expr": op["expr"], "derived_by": op["how"], "write": op["write"], "first": val["first"],
+                           "again": val["again"], "via_cols": val["again_cols"], "want": want})
         elif kind in ("indices", "mask", "rows"):
             vals = {k: (v.tolist() if hasattr(v, "tolist") else v) for k, v in t._data.items() if k in t._col_names}
             sel = op["sel"]
@@ -729,6 +757,20 @@ def gen_c07(rng, sess):
             sess.step({"op": "setcol", "name": "x%d" % stepi, "vals": list(range(n))})
         elif r < 0.41:
             sess.step({"op": "delcol", "name": rng.choice(["v", "s", "x1", "x2"])})
+        elif r < 0.44 and n and len(col) <= 12:
+            # the table in use replaced by a derivation of itself (repetition, t + t, copy) AFTER look-ups have warmed its
+            # caches: for the model a new table with the derived columns
+            how = rng.choice([["mul", 2], ["mul", 3], ["add_self"], ["copy"]])
+            k = how[1] if how[0] == "mul" else (2 if how[0] == "add_self" else 1)
+            sess.step({"op": "lookup", "api": "get_index", "row": gen_row(rng, col, names)})
+            sess.step({"op": "new", "index": "name", "via_derive": how,
+                       "cols": [[c, [cell_json(x) for x in t._data[c]] * k] for c in t._col_names]})
+            t2 = sess.pool[0]
+            col2 = [str(x) for x in t2._data["name"]]
+            for _ in range(rng.randint(1, 3)):
+                sess.step({"op": "lookup", "api": rng.choice(["get_index", "floordiv"]),
+                           "row": rng.choice(col2) + "::%d" % rng.choice([-1, -2, len(col2) // 2, 1])})
+            sess.step({"op": "labels"})
         elif r < 0.47:
             sess.step({"op": "labels"})
         else:
@@ -740,11 +782,23 @@ def gen_c07(rng, sess):
 
 
 def gen_c08(rng, sess):
-    sess.step(gen_table(rng, 7))
+    op0 = gen_table(rng, 7)
+    zcol = rng.random() < 0.2
+    if zcol:
+        # a float column with NaN / infinities: value ranges on it (lo <= z <= hi is false for NaN).  The model's ranges
+        # are over integer columns, so these histories are judged by the direct oracle only
+        n0 = len(op0["cols"][0][1])
+        op0["cols"].append(["z", [{"f": rng.choice(["nan", "nan", "0.0", "-1.5", "2.0", "inf", "-inf", "1.0"])} for _ in range(n0)]])
+        sess.oracle_only_hist = True
+    sess.step(op0)
     t = sess.pool[0]
     col = [str(x) for x in t._data["name"]]
     for _ in range(rng.randint(3, 8)):
         sel = gen_sel(rng, len(col), col)
+        if zcol and rng.random() < 0.6:
+            sel = ["slice", rng.choice([None, -2, 0, 0.0, 1, 2.5]), rng.choice([None, -2, 0, 1, 2.5, 4]), "z"]
+            if rng.random() < 0.3:
+                sel = ["tuple", [sel, gen_sel(rng, len(col), col, 1)]]
         for kind in rng.sample(["indices", "mask", "rows"], rng.randint(1, 3)):
             o = add_matches({"op": kind, "sel": sel}, col)
             if '.5' in json.dumps(sel):
@@ -840,6 +894,13 @@ def gen_c14(rng, sess):
         else:
             sess.step({"op": "setcol", "name": rng.choice(["new%d" % rng.randint(0, 3), "power", "sign"]),
                        "vals": [rng.randint(-3, 4) for _ in range(n)]})
+    if n and rng.random() < 0.3 and all(c in t._col_names for c in ("v", "w", "x")) and "cols2d" not in op:
+        # last step of the history (the model is not told about the write-through, so nothing may follow)
+        sess.oracle_only_hist = True
+        wr = ["cell", rng.choice(["v", "w"]), rng.randrange(n), rng.randint(5, 9)] if rng.random() < 0.6 else \
+             ["col", rng.choice(["v", "w"]), [rng.randint(5, 9) for _ in range(n)]]
+        sess.step({"op": "expr_after_shared_write", "expr": rng.choice(["v+2*w", "v*w-x", "w-v"]),
+                   "how": rng.choice(["copy", "cols", "rows"]), "write": wr})
 
 
 def exhaustive_c08(sess_factory, k):
